@@ -11,8 +11,9 @@ namespace Rsdns.AutoTrait
 open Rsdns.Generated
 
 /-- `UdpSocket` (std / tokio / async-std / smol), `TcpStream`, `Vec<u8>`, `ArrayVec<u8, N>`, `str`, `[u8]`,
-    `ClientConfig` (plain data: socket addresses, durations, enums, an ArrayString) and the plain
-    scalars are all `Send + Sync` -/
+    and the plain scalars / plain-data enums (socket addresses, durations, `ProtocolStrategy`, `Recursion`,
+    `EDns`, `ArrayString<N>`) are all `Send + Sync`; `ClientConfig` itself is a struct whose fields are
+    extracted (`Generated.CLIENT_CONFIG`, the feature-gated `interface_` field included) -/
 def leafSend : Leaf → Bool := fun _ => true
 def leafSync : Leaf → Bool := fun _ => true
 
@@ -36,11 +37,13 @@ def stdEnv : SName → List Ty
   | .clientImpl => STD_CLIENT_IMPL
   | .clientCtx => STD_CLIENT_CTX
   | .client => CLIENT
+  | .clientConfig => CLIENT_CONFIG
 
 def asyncEnv : SName → List Ty
   | .clientImpl => ASYNC_CLIENT_IMPL
   | .clientCtx => ASYNC_CLIENT_CTX
   | .client => CLIENT
+  | .clientConfig => CLIENT_CONFIG
 
 /-- what the future of `query_raw` holds across its await points: `&ClientImpl` (through `&mut Client`),
     the borrowed arguments, the `ClientCtx` local and (TCP path) a `TcpStream` -/
